@@ -371,6 +371,20 @@ PY_VAR = {'map': {'vsum': lambda *xs: sum(xs), 'vlast': lambda *xs: xs[-1]},
           'mapcat': {'vtup': lambda *xs: list(xs), 'vrev': lambda *xs: list(xs)[::-1]},
           'keep': {'vsumpos': lambda *xs: sum(xs) if sum(xs) > 0 else None, 'vsum': lambda *xs: sum(xs)},
           'count': {'vasc': lambda *xs: all(a < b for a, b in zip(xs, xs[1:])), 'vtrue': lambda *xs: True}}
+# result-valued variadic predicates for some / all (None = nil, bool, int)
+PY_VARVAL = {'vsumpos': lambda *xs: sum(xs) if sum(xs) > 0 else None, 'vsum': lambda *xs: sum(xs),
+             'vasc': lambda *xs: all(a < b for a, b in zip(xs, xs[1:])), 'vtrue': lambda *xs: True,
+             'vfz': lambda *xs: False if sum(xs) % 3 == 0 else (None if sum(xs) % 3 == 1 else sum(xs))}
+
+
+def jval(v):
+    """python result of a PY_VARVAL function -> value tuple"""
+    if v is None: return NIL
+    if v is True: return TRUE
+    if v is False: return FALSE
+    return I(v)
+
+
 PY_SUBST = {'upper': lambda m: m.upper(), 'const': lambda m: b'Z', 'dup': lambda m: m + m}
 
 
@@ -805,6 +819,15 @@ def _oracle(f, args):
         else:
             r = l[n:] if n >= 0 else l[:max(0, len(l) + n)]
         return mk(r), same
+    if f in ('some', 'all') and len(args) >= 2 and args[0][0] == 'F' and args[0][1] in PY_VARVAL and all(a[0] in ('(', '[') for a in args[1:]):
+        # reference definition: first truthy (some) / first falsey (all) result over the rows up to the shortest sequence
+        g = PY_VARVAL[args[0][1]]
+        for row in zip(*[ints_of(a[1]) for a in args[1:]]):
+            v = g(*row)
+            truthy = not (v is None or v is False)
+            if truthy == (f == 'some'):
+                return jval(v), same
+        return (NIL if f == 'some' else TRUE), same
     if f in PY_VAR and len(args) >= 2 and args[0][0] == 'F' and args[0][1] in PY_VAR[f] and all(a[0] in ('(', '[') for a in args[1:]):
         g = PY_VAR[f][args[0][1]]
         vals = [g(*row) for row in zip(*[ints_of(a[1]) for a in args[1:]])]
